@@ -87,13 +87,16 @@ def _rng():
     return range(-1, BOUND[0] + 2)
 
 
-def forall(lo, hi, body, name='q'):
-    """forall i in [lo, hi): body(i)."""
+def forall(lo, hi, body, name='q', pat=None):
+    """forall i in [lo, hi): body(i).  pat(i): optional instantiation trigger (a term containing i; it changes
+    how the solver searches, not what the formula means)."""
     if is_sym(lo, hi) or SYMBOLIC[0]:
         if BOUND[0] is not None:
             return z3.And(*[z3.Implies(z3.And(i >= lo, i < hi), _b(body(z3.IntVal(i)))) for i in _rng()])
         i = z3.Int('%s!%d' % (name, next(_fresh)))
         bd = _b(body(i))
+        if pat is not None:
+            return z3.ForAll([i], z3.Implies(z3.And(i >= lo, i < hi), bd), patterns=[pat(i)])
         return z3.ForAll([i], z3.Implies(z3.And(i >= lo, i < hi), bd))
     return all(body(i) for i in range(lo, hi))
 
